@@ -137,8 +137,8 @@ CHECKS["C11"] = dict(
          "model). Not compared: the element ORDER of the list to_cytoscape returns and its positional edge ids e<i> (they follow networkx "
          "subgraph-view iteration = hash order for almost every multi-table statement; the export is compared as the set of its nodes with "
          "all attributes and its edges; the number of inputs affected is in the evidence), and the order generated subquery_<hash> names "
-         "induce in sorted lists (the property exempts those names). Repairs delivered as patches, to be committed in /repo: D16 (FROM-clause "
-         "order instead of set order for unqualified columns and `*`), D26 (total order of get_column_lineage()), D28 (non-validating "
+         "induce in sorted lists (the property exempts those names). Repairs delivered as patches, to be committed in /repo: D16 (dict "
+         "order of the alias mapping instead of set order for unqualified columns and `*`; the repaired code is the model's order 0), D26 (total order of get_column_lineage()), D28 (non-validating "
          "analyser: WRITE tag of subqueries) - until they are applied the check exits 1 on /repo with those three replays. Known findings "
          "D10 (several RENAME pairs), D27 (column-level export names a subquery after an arbitrary one of its aliases).",
     technique="Lean 4 proof (permutation lemmas per set-iteration site, state machine for lazy evaluation) + differential correspondence: "
